@@ -4,6 +4,9 @@ Line-protocol driver for the temporal change / cumulation model (property C13).
   change <c> <kind> <shift> <series>
   conv   <c> <conv> <series>
   cum    <c> <kind> <shift> <initial> <span> <series>
+  cumv   <c> <kind> <shift> <span> <j> <series> <initial_0> … <initial_{m-1}>
+         variant `j` of a cumulation whose `initial` carries `m` variants (each `v=<cell>` or a series):
+         `<series>` is variant `j` of the change series, the initial condition is chosen by the broadcast rule
 
 <c>       q  exact rationals (cells `num/den`)           -- formulas without log/exp/pw only
           f  IEEE doubles (cells = the 64 bits as a decimal natural number)
@@ -137,6 +140,15 @@ def stepWith (c : Codec α) (S : Sym α) (exact : Bool) (ws : List String) : Str
         | some (.ok sp) => showResult c (temporalCumulation S kind shift ini (some sp) ser)
         | none => showResult c (temporalCumulation S kind shift ini none ser)
     | _, _, _, _, _ => "bad-op"
+  | "cumv" :: kind :: shift :: span :: j :: ser :: inits =>
+    match parseCumKind kind, parseShift shift, parseSpan span, j.toNat?, parseSeries c ser,
+        inits.mapM (fun w => if w = "none" then none else parseInit c w) with
+    | some kind, some shift, some (some (.ok sp)), some j, some ser, some inits =>
+      if exact && cumNeedsSym kind then "bad-op"
+      else match pickVariant inits j with
+        | some ini => showResult c (temporalCumulation S kind shift ini (some sp) ser)
+        | none => "bad-op"
+    | _, _, _, _, _, _ => "bad-op"
   | _ => "bad-op"
 
 end
